@@ -135,5 +135,294 @@ theorem fillViaChunks_ok {w : Nat} (size : Nat) (toLE : BitVec w → List U8)
       rfl
     · simp only [hn, if_false]; rfl
 
+/-! ## BlockRng, BlockRng64 -/
+
+theorem USIZE_eq : USIZE = 2 ^ 64 := rfl
+
+/-- what a checked block core must satisfy relative to the model's: under the core invariant
+    `CI` and for a results buffer of the right length, the checked `generate` does not panic,
+    returns what the model returns, and the invariant and the buffer length are preserved.
+    `2 < len` is what `BlockRng::next_u64` needs (`generate_and_set(2)`). -/
+structure BlockOK {σ : Type} {w : Nat} (c : BlockCore σ w) (cC : BlockCoreC σ w) (CI : σ → Prop) : Prop where
+  len_gt : 2 < c.len
+  len_lt : c.len < 2 ^ 63
+  gen_ok : ∀ s res, CI s → res.size = c.len → cC.generate s res = .ok (c.generate s res)
+  gen_inv : ∀ s res, CI s → res.size = c.len → CI (c.generate s res).2
+  gen_size : ∀ s res, CI s → res.size = c.len → (c.generate s res).1.size = c.len
+
+namespace BlockRng
+variable {σ : Type}
+
+/-- the data-structure invariant of `BlockRng` -/
+def Inv (c : BlockCore σ 32) (CI : σ → Prop) (r : Rngs.BlockRng σ) : Prop :=
+  r.index ≤ c.len ∧ r.results.size = c.len ∧ CI r.core
+
+theorem new_inv (c : BlockCore σ 32) (CI : σ → Prop) (core : σ) (h : CI core) :
+    Inv c CI (Rngs.BlockRng.new c core) := by
+  simp [Inv, Rngs.BlockRng.new, h]
+
+variable {c : BlockCore σ 32} {cC : BlockCoreC σ 32} {CI : σ → Prop}
+
+theorem generateAndSet_ok (ok : BlockOK c cC CI) (r : Rngs.BlockRng σ) (h : Inv c CI r)
+    (i : Nat) (hi : i < c.len) :
+    generateAndSet cC r i = .ok (r.generateAndSet c i) ∧ Inv c CI (r.generateAndSet c i)
+      ∧ (r.generateAndSet c i).index = i := by
+  obtain ⟨h1, h2, h3⟩ := h
+  refine ⟨?_, ⟨?_, ?_, ?_⟩, rfl⟩
+  · simp only [generateAndSet, Rngs.BlockRng.generateAndSet]
+    rw [assertC_ok (by simp [h2, hi]), ok_bind, ok.gen_ok _ _ h3 h2, ok_bind]
+    rfl
+  · exact Nat.le_of_lt hi
+  · exact ok.gen_size _ _ h3 h2
+  · exact ok.gen_inv _ _ h3 h2
+
+
+theorem nextU32_ok (ok : BlockOK c cC CI) (r : Rngs.BlockRng σ) (h : Inv c CI r) :
+    nextU32 cC r = .ok (r.nextU32 c) ∧ Inv c CI (r.nextU32 c).2 := by
+  have hl := ok.len_gt
+  have hl2 := ok.len_lt
+  have hU := USIZE_eq
+  have hsz := h.2.1
+  unfold nextU32 Rngs.BlockRng.nextU32
+  rw [hsz]
+  by_cases hge : r.index ≥ c.len
+  · obtain ⟨g1, g2, g3⟩ := generateAndSet_ok ok r h 0 (by omega)
+    simp only [hge, if_true, g1, ok_bind]
+    obtain ⟨i1, i2, i3⟩ := g2
+    rw [rdC_ok (by omega), ok_bind, addC_ok (by omega), ok_bind]
+    exact ⟨rfl, by simp only; omega, i2, i3⟩
+  · simp only [hge, if_false, pure_eq_ok, ok_bind]
+    obtain ⟨i1, i2, i3⟩ := h
+    rw [rdC_ok (by omega), ok_bind, addC_ok (by omega), ok_bind]
+    exact ⟨rfl, by simp only; omega, i2, i3⟩
+
+theorem readU64_ok (results : Array U32) (i : Nat) (h : i + 1 < results.size) (h2 : results.size < 2^63) :
+    readU64 results i = .ok (Rngs.BlockRng.readU64 results i) := by
+  have hU := USIZE_eq
+  unfold readU64 Rngs.BlockRng.readU64
+  rw [addC_ok (by omega), ok_bind, sliceInclC_ok (by omega) h, ok_bind]
+  simp only
+  rw [rdSubC_ok (by omega) h, ok_bind, rdSubC_ok (by omega) (by omega), ok_bind]
+  rfl
+
+theorem nextU64_ok (ok : BlockOK c cC CI) (r : Rngs.BlockRng σ) (h : Inv c CI r) :
+    nextU64 cC r = .ok (r.nextU64 c) ∧ Inv c CI (r.nextU64 c).2 := by
+  have hl := ok.len_gt
+  have hl2 := ok.len_lt
+  have hU := USIZE_eq
+  have hsz := h.2.1
+  unfold nextU64 Rngs.BlockRng.nextU64
+  simp only [hsz]
+  rw [subC_ok (by omega), ok_bind]
+  by_cases h1 : r.index < c.len - 1
+  · simp only [h1, if_true]
+    rw [addC_ok (by omega), ok_bind, readU64_ok _ _ (by omega) (by omega), ok_bind]
+    obtain ⟨i1, i2, i3⟩ := h
+    exact ⟨rfl, by simp only; omega, i2, i3⟩
+  · simp only [h1, if_false]
+    by_cases h2 : r.index ≥ c.len
+    · simp only [h2, if_true]
+      obtain ⟨g1, g2, g3⟩ := generateAndSet_ok ok r h 2 (by omega)
+      rw [g1, ok_bind, readU64_ok _ _ (by rw [g2.2.1]; omega) (by rw [g2.2.1]; omega), ok_bind]
+      exact ⟨rfl, g2⟩
+    · simp only [h2, if_false]
+      obtain ⟨g1, g2, g3⟩ := generateAndSet_ok ok r h 1 (by omega)
+      rw [ok_bind, rdC_ok (by omega), ok_bind, g1, ok_bind,
+        rdC_ok (by rw [g2.2.1]; omega), ok_bind]
+      exact ⟨rfl, g2⟩
+
+
+theorem fillLoop_ok (ok : BlockOK c cC CI) (n : Nat) (hn : n < USIZE) :
+    ∀ (fuel readLen : Nat) (acc : List U8) (r : Rngs.BlockRng σ), Inv c CI r → readLen ≤ n →
+      fillLoop cC n fuel readLen acc r = .ok (Rngs.BlockRng.fillLoop c n fuel readLen acc r) ∧
+      Inv c CI (Rngs.BlockRng.fillLoop c n fuel readLen acc r).2 := by
+  have hl := ok.len_gt
+  have hl2 := ok.len_lt
+  have hU := USIZE_eq
+  intro fuel
+  induction fuel with
+  | zero => intro readLen acc r h _; exact ⟨rfl, h⟩
+  | succ fuel ih =>
+    intro readLen acc r h hr
+    unfold fillLoop Rngs.BlockRng.fillLoop
+    by_cases hlt : readLen < n
+    · simp only [hlt, if_true]
+      -- the state after the optional refill
+      have key : ∃ r', (if r.index ≥ r.results.size then generateAndSet cC r 0 else pure r) = .ok r' ∧
+          (if r.index ≥ c.len then r.generateAndSet c 0 else r) = r' ∧ Inv c CI r' := by
+        rw [h.2.1]
+        by_cases hge : r.index ≥ c.len
+        · obtain ⟨g1, g2, _⟩ := generateAndSet_ok ok r h 0 (by omega)
+          exact ⟨_, by simp only [hge, if_true, g1], by simp only [hge, if_true], g2⟩
+        · exact ⟨r, by simp only [hge, if_false, pure_eq_ok], by simp only [hge, if_false], h⟩
+      obtain ⟨r', k1, k2, k3⟩ := key
+      rw [k1, ok_bind, k2]
+      obtain ⟨i1, i2, i3⟩ := k3
+      have hsrc : (r'.results.toList.drop r'.index).length = c.len - r'.index := by
+        simp [i2]
+      rw [sliceFromC_ok (by omega), ok_bind, sliceFromC_ok (by omega), ok_bind,
+        fillViaChunks_ok 4 U32.toLE _ _ (by decide) length_U32_toLE (by omega) (by omega), ok_bind]
+      have hb := fillViaChunks_bounds 4 U32.toLE (r'.results.toList.drop r'.index) (n - readLen) (by decide)
+      rw [hsrc] at hb
+      generalize Rngs.fillViaChunks 4 U32.toLE (r'.results.toList.drop r'.index) (n - readLen) = p at hb ⊢
+      obtain ⟨consumed, filled, bytes⟩ := p
+      simp only at hb ⊢
+      rw [addC_ok (by omega), ok_bind, addC_ok (by omega), ok_bind]
+      exact ih _ _ _ ⟨by simp only; omega, i2, i3⟩ (by omega)
+    · simp only [hlt, if_false]; exact ⟨rfl, h⟩
+
+theorem fillBytes_ok (ok : BlockOK c cC CI) (n : Nat) (hn : n < USIZE) (r : Rngs.BlockRng σ)
+    (h : Inv c CI r) :
+    fillBytes cC n r = .ok (r.fillBytes c n) ∧ Inv c CI (r.fillBytes c n).2 :=
+  fillLoop_ok ok n hn _ _ _ r h (Nat.zero_le _)
+
+end BlockRng
+namespace BlockRng64
+variable {σ : Type}
+
+/-- the data-structure invariant of `BlockRng64`; `halfUsed → 1 ≤ index` is what keeps
+    `self.index - self.half_used as usize` from underflowing -/
+def Inv (c : BlockCore σ 64) (CI : σ → Prop) (r : Rngs.BlockRng64 σ) : Prop :=
+  r.index ≤ c.len ∧ r.results.size = c.len ∧ (r.halfUsed = true → 1 ≤ r.index) ∧ CI r.core
+
+theorem new_inv (c : BlockCore σ 64) (CI : σ → Prop) (core : σ) (h : CI core) :
+    Inv c CI (Rngs.BlockRng64.new c core) := by
+  simp [Inv, Rngs.BlockRng64.new, h]
+
+variable {c : BlockCore σ 64} {cC : BlockCoreC σ 64} {CI : σ → Prop}
+
+theorem nextU32_ok (ok : BlockOK c cC CI) (r : Rngs.BlockRng64 σ) (h : Inv c CI r) :
+    nextU32 cC r = .ok (r.nextU32 c) ∧ Inv c CI (r.nextU32 c).2 := by
+  have hl := ok.len_gt
+  have hl2 := ok.len_lt
+  have hU := USIZE_eq
+  obtain ⟨i1, i2, i3, i4⟩ := h
+  unfold nextU32 Rngs.BlockRng64.nextU32
+  rw [i2]
+  cases hh : r.halfUsed with
+  | true =>
+    have i3' := i3 hh
+    have hlt : ¬ (r.index - 1 ≥ c.len) := by omega
+    simp only [Bool.toNat_true, subC_ok i3', ok_bind, hlt, if_false, pure_eq_ok, hh]
+    rw [mulC_ok (by omega), ok_bind]
+    simp only [Bool.not_true, Bool.toNat_false]
+    rw [addC_ok (by omega), ok_bind, rdC_ok (by omega), ok_bind, shiftAmtC_ok (by omega), ok_bind]
+    exact ⟨rfl, by simp only [Nat.add_zero]; exact i1, i2, by simp, i4⟩
+  | false =>
+    simp only [Bool.toNat_false, subC_ok (Nat.zero_le _), ok_bind, Nat.sub_zero]
+    by_cases hge : r.index ≥ c.len
+    · simp only [hge, if_true, ok.gen_ok _ _ i4 i2, ok_bind, pure_eq_ok, Bool.not_false,
+        Bool.toNat_true, Bool.toNat_false]
+      rw [mulC_ok (by omega), ok_bind]
+      rw [addC_ok (by omega), ok_bind, rdC_ok (by simp only [ok.gen_size _ _ i4 i2]; omega), ok_bind,
+        shiftAmtC_ok (by omega), ok_bind]
+      exact ⟨rfl, by simp only; omega, ok.gen_size _ _ i4 i2, by simp, ok.gen_inv _ _ i4 i2⟩
+    · simp only [hge, if_false, pure_eq_ok, ok_bind, hh, Bool.not_false,
+        Bool.toNat_true, Bool.toNat_false]
+      rw [mulC_ok (by omega), ok_bind]
+      rw [addC_ok (by omega), ok_bind, rdC_ok (by omega), ok_bind, shiftAmtC_ok (by omega), ok_bind]
+      exact ⟨rfl, by simp only; omega, i2, by simp, i4⟩
+
+theorem nextU64_ok (ok : BlockOK c cC CI) (r : Rngs.BlockRng64 σ) (h : Inv c CI r) :
+    nextU64 cC r = .ok (r.nextU64 c) ∧ Inv c CI (r.nextU64 c).2 := by
+  have hl := ok.len_gt
+  have hl2 := ok.len_lt
+  have hU := USIZE_eq
+  obtain ⟨i1, i2, i3, i4⟩ := h
+  unfold nextU64 Rngs.BlockRng64.nextU64
+  rw [i2]
+  by_cases hge : r.index ≥ c.len
+  · simp only [hge, if_true, ok.gen_ok _ _ i4 i2, ok_bind, pure_eq_ok]
+    rw [rdC_ok (by simp only [ok.gen_size _ _ i4 i2]; omega), ok_bind, addC_ok (by omega), ok_bind]
+    exact ⟨rfl, by simp only; omega, ok.gen_size _ _ i4 i2, by simp, ok.gen_inv _ _ i4 i2⟩
+  · simp only [hge, if_false, pure_eq_ok, ok_bind]
+    rw [rdC_ok (by omega), ok_bind, addC_ok (by omega), ok_bind]
+    exact ⟨rfl, by simp only; omega, i2, by simp, i4⟩
+
+theorem fillLoop_ok (ok : BlockOK c cC CI) (n : Nat) (hn : n < USIZE) :
+    ∀ (fuel readLen : Nat) (acc : List U8) (r : Rngs.BlockRng64 σ), Inv c CI r → r.halfUsed = false →
+      readLen ≤ n →
+      fillLoop cC n fuel readLen acc r = .ok (Rngs.BlockRng64.fillLoop c n fuel readLen acc r) ∧
+      Inv c CI (Rngs.BlockRng64.fillLoop c n fuel readLen acc r).2 := by
+  have hl := ok.len_gt
+  have hl2 := ok.len_lt
+  have hU := USIZE_eq
+  intro fuel
+  induction fuel with
+  | zero => intro readLen acc r h _ _; exact ⟨rfl, h⟩
+  | succ fuel ih =>
+    intro readLen acc r h hhu hr
+    unfold fillLoop Rngs.BlockRng64.fillLoop
+    by_cases hlt : readLen < n
+    · simp only [hlt, if_true]
+      generalize hr' : (if r.index ≥ c.len then _ else r : Rngs.BlockRng64 σ) = r'
+      have key : (if r.index ≥ r.results.size then (do
+            let (res, core) ← cC.generate r.core r.results
+            pure { r with results := res, core := core, index := 0 }) else pure r) = .ok r' ∧
+          Inv c CI r' ∧ r'.halfUsed = false := by
+        obtain ⟨i1, i2, i3, i4⟩ := h
+        rw [i2, ← hr']
+        by_cases hge : r.index ≥ c.len
+        · simp only [hge, if_true, ok.gen_ok _ _ i4 i2, ok_bind]
+          exact ⟨rfl, ⟨Nat.zero_le _, ok.gen_size _ _ i4 i2, by simp [hhu], ok.gen_inv _ _ i4 i2⟩, hhu⟩
+        · simp only [hge, if_false, pure_eq_ok]
+          exact ⟨trivial, ⟨i1, i2, i3, i4⟩, hhu⟩
+      obtain ⟨k1, k3, k4⟩ := key
+      rw [k1, ok_bind]
+      obtain ⟨i1, i2, i3, i4⟩ := k3
+      have hsrc : (r'.results.toList.drop r'.index).length = c.len - r'.index := by
+        simp [i2]
+      rw [sliceFromC_ok (by omega), ok_bind, sliceFromC_ok (by omega), ok_bind,
+        fillViaChunks_ok 8 U64.toLE _ _ (by decide) length_U64_toLE (by omega) (by omega), ok_bind]
+      have hb := fillViaChunks_bounds 8 U64.toLE (r'.results.toList.drop r'.index) (n - readLen) (by decide)
+      rw [hsrc] at hb
+      generalize Rngs.fillViaChunks 8 U64.toLE (r'.results.toList.drop r'.index) (n - readLen) = p at hb ⊢
+      obtain ⟨consumed, filled, bytes⟩ := p
+      simp only at hb ⊢
+      rw [addC_ok (by omega), ok_bind, addC_ok (by omega), ok_bind]
+      exact ih _ _ _ ⟨by simp only; omega, i2, by simp [k4], i4⟩ k4 (by omega)
+    · simp only [hlt, if_false]; exact ⟨rfl, h⟩
+
+theorem fillBytes_ok (ok : BlockOK c cC CI) (n : Nat) (hn : n < USIZE) (r : Rngs.BlockRng64 σ)
+    (h : Inv c CI r) :
+    fillBytes cC n r = .ok (r.fillBytes c n) ∧ Inv c CI (r.fillBytes c n).2 :=
+  fillLoop_ok ok n hn _ _ _ _ ⟨h.1, h.2.1, by simp, h.2.2.2⟩ rfl (Nat.zero_le _)
+
+end BlockRng64
+
+/-! ## seed_from_u64 (PCG32) -/
+
+theorem length_pcg32 (st : U64) : (pcg32 st).1.length = 4 := rfl
+
+/-- the rotate amount of `pcg32` is below the width anyway -/
+theorem pcg32_rot_lt (state : U64) : ((state >>> 59).setWidth 32 : U32).toNat < 32 := by
+  have h : (state >>> 59).toNat < 32 := by
+    rw [BitVec.toNat_ushiftRight, Nat.shiftRight_eq_div_pow]
+    have := state.isLt
+    omega
+  rw [BitVec.toNat_setWidth]
+  exact Nat.lt_of_le_of_lt (Nat.mod_le _ _) h
+
+theorem pcg32Chunks_ok : ∀ (k : Nat) (st : U64), pcg32Chunks k st = .ok (Rngs.pcg32Chunks k st) := by
+  intro k
+  induction k with
+  | zero => intro st; rfl
+  | succ k ih =>
+    intro st
+    simp only [pcg32Chunks, Rngs.pcg32Chunks, copyLenC_ok (length_pcg32 _).symm, ok_bind, ih,
+      pure_eq_ok]
+
+theorem pcg32Seed_ok (len : Nat) (state : U64) :
+    pcg32Seed len state = .ok (Rngs.pcg32Seed len state) := by
+  have hr : len % 4 < 4 := Nat.mod_lt _ (by decide)
+  simp only [pcg32Seed, Rngs.pcg32Seed, chunksExactC_ok (n := 4) (by decide), ok_bind,
+    pcg32Chunks_ok]
+  by_cases h : len % 4 ≠ 0
+  · rw [if_pos h, if_pos h]
+    rw [sliceToC_ok (by rw [length_pcg32]; omega), ok_bind,
+      copyLenC_ok (by rw [List.length_take, length_pcg32]; omega), ok_bind]
+    rfl
+  · rw [if_neg h, if_neg h]; rfl
+
 end Checked
 end Rngs
